@@ -15,6 +15,7 @@ import Proofs.C01_NoSep
 import Proofs.C01_Raw
 import Proofs.C01_Image
 import Proofs.C01_Plain
+import Proofs.C01_ReadCompose
 namespace Mammoth
 
 /-! ### wrapping in HTML elements adds no text -/
@@ -395,5 +396,269 @@ example : c01_docText {}
 
 /-- raw text of the example document `c01_exDoc`: every paragraph (also the hidden one, also those in cells) ends in "\n\n" -/
 example : rawTextDoc c01_exDoc = S!"Hello\tworld\n\nsecret\n\nH\n\nc\n\n" := by rfl
+
+/-! ## The reader half: the document tree carries exactly the live text of the XML
+
+  Specification (Proofs/C01_XmlSpec.lean, Proofs/C01_XmlDefer.lean), by recursion on the XML tree, by
+  element *name*, independent of the reader's dispatch table, state and fuel:
+  `c01_xmlLive n` = the live leaves of `n` — `w:t` text, tabs, the two hyphens, `w:sym` characters, note and
+  comment reference markers — in reading order; `w:del`, `w:instrText`, `w:fldChar`, property elements,
+  unknown elements and everything but the `mc:Fallback` of an `mc:AlternateContent` give nothing;
+  text boxes (`w:pict`) go to the `extra` channel and a paragraph puts the extra of its content after its
+  own in-line leaves.  `c01_xmlLiveD b n` is the same with an explicit buffer `b` of deferred leaves for
+  paragraphs whose mark is a tracked deletion.  `c01_elemLeaves` reads the leaves off a document tree.
+
+  Tables: the reader runs `calculate_row_spans` on the rows of each table, which removes the cells it takes
+  for vertical-merge continuations together with their content (specified by C09).  `C01_read_presweep`
+  is the exact statement for all inputs (the result is the sweep of a tree with exactly the specified
+  leaves); the equalities below are for XML without `w:vMerge` continuation cells (`c01_noVMerge`), and
+  `C01_read_leaves_sublist` says that in general only leaves of cells can disappear, nothing is added
+  or reordered. -/
+
+/-- STAGE 1, one element.  For an XML tree without deleted paragraph marks (`c05_noDel`) and without
+    vertical-merge continuation cells, read in a state with nothing deferred: whenever the reader
+    succeeds (any environment, fuel, complex-field state), the leaves of the elements it returns are
+    exactly the in-line leaves of the specification, the leaves of its `extra` result are exactly the
+    extra leaves, in the same order, and still nothing is deferred.
+    (`_partial`: the statement for trees WITH deleted paragraph marks is `C01_read_leaves` below.) -/
+theorem C01_read_leaves_partial (env : REnv) (fuel : Nat) (st : RState) (n : XmlNode) (r : ReadResult)
+    (st' : RState) (h : readElem env fuel st n = .ok (r, st')) (hd : st.deleted = [])
+    (hn : c05_noDel n = true) (hv : c01_noVMerge n = true) :
+    c01_elemLeavesL r.elements = (c01_xmlLive n).inline ∧ c01_elemLeavesL r.extra = (c01_xmlLive n).extra ∧
+      st'.deleted = [] := by
+  obtain ⟨h1, h2⟩ := c01_readElem_live env fuel st n r st' h hd hn
+  rw [hv] at h2
+  exact ⟨c01_Pre_eq h2.1, c01_Pre_eq h2.2, h1⟩
+
+/-- STAGE 1, a story (`read_all` on the children of `w:body`, of a note, of a comment) read from the
+    initial state: same hypotheses on every child, same conclusion. -/
+theorem C01_read_leaves_partial_readAll (env : REnv) (fuel : Nat) (ns : List XmlNode) (r : ReadResult)
+    (st' : RState) (h : readAll env fuel {} ns = .ok (r, st'))
+    (hn : c05_noDelL ns = true) (hv : c01_noVMergeL ns = true) :
+    c01_elemLeavesL r.elements = (c01_xmlLiveL ns).inline ∧ c01_elemLeavesL r.extra = (c01_xmlLiveL ns).extra ∧
+      st'.deleted = [] := by
+  obtain ⟨h1, h2⟩ := c01_readAll_live env fuel {} ns r st' h rfl hn
+  rw [hv] at h2
+  exact ⟨c01_Pre_eq h2.1, c01_Pre_eq h2.2, h1⟩
+
+/-- STAGE 1, as text: the characters of the text runs and tabs of the tree the reader returns are the
+    characters of the specified leaves, in order -/
+theorem C01_read_text_partial (env : REnv) (fuel : Nat) (ns : List XmlNode) (r : ReadResult)
+    (st' : RState) (h : readAll env fuel {} ns = .ok (r, st'))
+    (hn : c05_noDelL ns = true) (hv : c01_noVMergeL ns = true) :
+    c01_leavesText (c01_elemLeavesL r.elements) = c01_leavesText (c01_xmlLiveL ns).inline := by
+  rw [(C01_read_leaves_partial_readAll env fuel ns r st' h hn hv).1]
+
+/-- STAGE 2, one element, every input.  Let `b = c01_pend st.deleted` be the buffer that stands for the
+    XML nodes the reader holds back when it starts (their leaves).  If neither those nodes nor `n`
+    contain a vertical-merge continuation cell, then whenever the reader succeeds the leaves of its
+    elements and of its extra result are exactly those of `c01_xmlLiveD b n`, in order, and the buffer the
+    specification ends with stands for the nodes the reader holds back at the end. -/
+theorem C01_read_leaves (env : REnv) (fuel : Nat) (st : RState) (n : XmlNode) (r : ReadResult)
+    (st' : RState) (h : readElem env fuel st n = .ok (r, st'))
+    (hvs : c01_noVMergeL st.deleted = true) (hv : c01_noVMerge n = true) :
+    c01_elemLeavesL r.elements = (c01_xmlLiveD (c01_pend st.deleted) n).live.inline ∧
+    c01_elemLeavesL r.extra = (c01_xmlLiveD (c01_pend st.deleted) n).live.extra ∧
+    c01_pend st'.deleted = (c01_xmlLiveD (c01_pend st.deleted) n).buf := by
+  have p := c01_readElem_liveD env fuel st n r st' h
+  have hs := p.sim
+  rw [hvs, hv] at hs
+  exact ⟨c01_Pre_eq hs.1, c01_Pre_eq hs.2, p.buf⟩
+
+/-- STAGE 2, a story read from the initial state: the leaves of the returned tree are those of the
+    specification started with the empty buffer; `c01_pend st'.deleted`, the content of trailing
+    paragraphs with a deleted mark that no later paragraph of the story took over, is what the
+    specification leaves in its buffer. -/
+theorem C01_read_leaves_readAll (env : REnv) (fuel : Nat) (ns : List XmlNode) (r : ReadResult)
+    (st' : RState) (h : readAll env fuel {} ns = .ok (r, st')) (hv : c01_noVMergeL ns = true) :
+    c01_elemLeavesL r.elements = (c01_xmlLiveDL [] ns).live.inline ∧
+    c01_elemLeavesL r.extra = (c01_xmlLiveDL [] ns).live.extra ∧
+    c01_pend st'.deleted = (c01_xmlLiveDL [] ns).buf := by
+  have p := c01_readAll_liveD env fuel {} ns r st' h
+  have hs := p.sim
+  have hb := p.buf
+  rw [show c01_pend ({} : RState).deleted = [] from c01_pend_nil] at hs hb
+  rw [hv] at hs
+  exact ⟨c01_Pre_eq hs.1, c01_Pre_eq hs.2, hb⟩
+
+/-- STAGE 2 as text -/
+theorem C01_read_text (env : REnv) (fuel : Nat) (ns : List XmlNode) (r : ReadResult)
+    (st' : RState) (h : readAll env fuel {} ns = .ok (r, st')) (hv : c01_noVMergeL ns = true) :
+    c01_leavesText (c01_elemLeavesL r.elements) = c01_leavesText (c01_xmlLiveDL [] ns).live.inline := by
+  rw [(C01_read_leaves_readAll env fuel ns r st' h hv).1]
+
+/-- EVERY input, tables with merged cells included: the returned elements are the row-span sweep
+    (`c01_spansL`: `calculate_row_spans` applied to every table, inner tables first) of a list of elements
+    whose leaves are exactly the specified in-line leaves; the same for the extra result. -/
+theorem C01_read_presweep (env : REnv) (fuel : Nat) (st : RState) (n : XmlNode) (r : ReadResult)
+    (st' : RState) (h : readElem env fuel st n = .ok (r, st')) :
+    (∃ pe, c01_spansL pe = r.elements ∧
+      c01_elemLeavesL pe = (c01_xmlLiveD (c01_pend st.deleted) n).live.inline) ∧
+    (∃ px, c01_spansL px = r.extra ∧
+      c01_elemLeavesL px = (c01_xmlLiveD (c01_pend st.deleted) n).live.extra) ∧
+    c01_pend st'.deleted = (c01_xmlLiveD (c01_pend st.deleted) n).buf := by
+  have p := c01_readElem_liveD env fuel st n r st' h
+  obtain ⟨⟨pe, e1, e2, _⟩, ⟨px, x1, x2, _⟩⟩ := p.sim
+  exact ⟨⟨pe, e1, e2⟩, ⟨px, x1, x2⟩, p.buf⟩
+
+/-- EVERY input: nothing is added or reordered — the leaves of the returned elements are a subsequence
+    of the specified leaves (what is missing is the content of cells removed by `calculate_row_spans`),
+    and the deferred buffer is as specified -/
+theorem C01_read_leaves_sublist (env : REnv) (fuel : Nat) (ns : List XmlNode) (r : ReadResult)
+    (st' : RState) (h : readAll env fuel {} ns = .ok (r, st')) :
+    (c01_elemLeavesL r.elements).Sublist (c01_xmlLiveDL [] ns).live.inline ∧
+    (c01_elemLeavesL r.extra).Sublist (c01_xmlLiveDL [] ns).live.extra ∧
+    c01_pend st'.deleted = (c01_xmlLiveDL [] ns).buf := by
+  have p := c01_readAll_liveD env fuel {} ns r st' h
+  have hs := p.sim
+  have hb := p.buf
+  rw [show c01_pend ({} : RState).deleted = [] from c01_pend_nil] at hs hb
+  exact ⟨c01_Pre_sublist hs.1, c01_Pre_sublist hs.2, hb⟩
+
+/-- the sweep can only remove leaves, and removes none from a tree without continuation marks -/
+theorem C01_spans_leaves (es : List Elem) :
+    (c01_elemLeavesL (c01_spansL es)).Sublist (c01_elemLeavesL es) ∧
+    (c01_noVmL es = true → c01_elemLeavesL (c01_spansL es) = c01_elemLeavesL es) :=
+  ⟨c01_spansL_sublist es, fun h => (c01_spansL_leaves es h).1⟩
+
+/-- the two specifications agree on trees without deleted paragraph marks: the buffer stays empty -/
+theorem C01_spec_agree (ns : List XmlNode) (hn : c05_noDelL ns = true) :
+    c01_xmlLiveDL [] ns = ⟨c01_xmlLiveL ns, []⟩ :=
+  c01_xmlLiveDL_noDel ns hn
+
+/-- CONSERVATION (a property of the specification alone): deferral moves leaves but never loses or
+    duplicates one.  What `c01_xmlLiveD` emits (in line and extra) together with what it leaves in the
+    buffer is a permutation of what came in the buffer together with all leaves of the nodes as
+    `c01_xmlLive` (which ignores the deletion marks) lists them. -/
+theorem C01_deferred_conserved (b : c01_Buf) (ns : List XmlNode) :
+    (c01_liveAll (c01_xmlLiveDL b ns).live ++ c01_bufAll (c01_xmlLiveDL b ns).buf).Perm
+      (c01_bufAll b ++ c01_liveAll (c01_xmlLiveL ns)) :=
+  c01_conserve_perm b ns
+
+/-- NOTHING LOST.  If the story does not end with content deferred by a deleted paragraph mark (the
+    specification's buffer is empty at the end — otherwise that content is dropped by the library: no
+    later paragraph exists to take it) and has no vertical-merge continuation cells, then the leaves
+    of what the reader returns (elements, then extra) are a permutation of ALL live leaves of the XML,
+    each exactly once; their order is the one given by `C01_read_leaves_readAll`. -/
+theorem C01_read_nothing_lost (env : REnv) (fuel : Nat) (ns : List XmlNode) (r : ReadResult)
+    (st' : RState) (h : readAll env fuel {} ns = .ok (r, st')) (hv : c01_noVMergeL ns = true)
+    (hb : (c01_xmlLiveDL [] ns).buf = []) :
+    (c01_elemLeavesL r.elements ++ c01_elemLeavesL r.extra).Perm
+      ((c01_xmlLiveL ns).inline ++ (c01_xmlLiveL ns).extra) := by
+  obtain ⟨h1, h2, _⟩ := C01_read_leaves_readAll env fuel ns r st' h hv
+  have := c01_conserve_perm [] ns
+  rw [hb] at this
+  simpa [c01_liveAll, c01_bufAll, h1, h2] using this
+
+/-- BOTH HALVES TOGETHER (state-free case).  Read a story from XML without vertical-merge continuation
+    cells, then convert the returned elements under a style map without `!`; if the elements contain no
+    note reference, comment reference or image (`c01_plainL`), the converter succeeds, only adds
+    warnings, and the text of the HTML nodes is exactly the text of the live leaves of the XML in the
+    specified order.  (With references the converter half is `C01_text_visitAll`: the markers are
+    numbered by the converter state, leaf by leaf in the same order.) -/
+theorem C01_xml_to_html_text (env : REnv) (fuel : Nat) (ns : List XmlNode) (r : ReadResult) (st' : RState)
+    (h : readAll env fuel {} ns = .ok (r, st')) (hv : c01_noVMergeL ns = true)
+    (cfg : Cfg) (hm : c01_noIgnoreMap cfg = true) (hp : c01_plainL r.elements = true)
+    (hdr : Bool) (cst : ConvState) :
+    ∃ nodes ms, visitAll cfg hdr r.elements cst = .ok (nodes, c01_addMsgs cst ms) ∧
+      textOfL nodes = c01_leavesText (c01_xmlLiveDL [] ns).live.inline := by
+  obtain ⟨nodes, ms, h1, h2⟩ := C01_plain_text cfg hm hdr r.elements hp cst
+  refine ⟨nodes, ms, h1, ?_⟩
+  rw [h2, c01_bodyTextL_leaves, (C01_read_leaves_readAll env fuel ns r st' h hv).1]
+
+/-! ### concrete XML -/
+
+private def c01_x (name : Str) (cs : List XmlNode) : XmlNode := .elem name [] cs
+private def c01_xt (s : Str) : XmlNode := c01_x S!"w:r" [c01_x S!"w:t" [.text s]]
+private def c01_xfld (ty : Str) : XmlNode := c01_x S!"w:r" [.elem S!"w:fldChar" [(S!"w:fldCharType", ty)] []]
+private def c01_xbox (ps : List XmlNode) : XmlNode :=
+  c01_x S!"w:r" [c01_x S!"w:pict" [c01_x S!"v:shape" [c01_x S!"v:textbox" [c01_x S!"w:txbxContent" ps]]]]
+/-- the computation succeeds and its result satisfies `p` -/
+private def c01_okAnd {α} (x : Except Err α) (p : α → Bool) : Bool :=
+  match x with
+  | .ok a => p a
+  | .error _ => false
+private def c01_xdelPr : XmlNode := c01_x S!"w:pPr" [c01_x S!"w:rPr" [c01_x S!"w:del" []]]
+
+/-- a paragraph with text, a tab, a tracked deletion, a HYPERLINK complex field, a text box, a note
+    reference, a `w:hyperlink`, an insertion and an alternate content; then a table -/
+private def c01_exBody1 : List XmlNode :=
+  [ c01_x S!"w:p"
+      [ c01_x S!"w:r" [c01_x S!"w:t" [.text S!"Hello"], c01_x S!"w:tab" []],
+        c01_x S!"w:del" [c01_x S!"w:r" [c01_x S!"w:delText" [.text S!"gone"]]],
+        c01_xfld S!"begin", c01_x S!"w:r" [c01_x S!"w:instrText" [.text S!" HYPERLINK \"http://x\" "]],
+        c01_xfld S!"separate", c01_xt S!"link", c01_xfld S!"end",
+        c01_xbox [c01_x S!"w:p" [c01_xt S!"box"]],
+        c01_x S!"w:r" [c01_x S!"w:t" [.text S!"after"], .elem S!"w:footnoteReference" [(S!"w:id", S!"3")] []],
+        .elem S!"w:hyperlink" [(S!"w:anchor", S!"a")] [c01_xt S!"hl"],
+        c01_x S!"w:ins" [c01_xt S!"ins"],
+        c01_x S!"mc:AlternateContent" [c01_x S!"mc:Choice" [c01_xt S!"choice"], c01_x S!"mc:Fallback" [c01_xt S!"fb"]] ],
+    c01_x S!"w:tbl" [c01_x S!"w:tr" [c01_x S!"w:tc" [c01_x S!"w:p" [c01_xt S!"c1"]],
+                                     c01_x S!"w:tc" [c01_x S!"w:p" [c01_xt S!"c2"]]]],
+    c01_x S!"w:sectPr" [] ]
+
+/-- the hypotheses of stage 1 hold, the reader succeeds, and the specified leaves are: -/
+example : c05_noDelL c01_exBody1 = true ∧ c01_noVMergeL c01_exBody1 = true := by decide +kernel
+example : (readAll {} 12 {} c01_exBody1).toBool = true := by decide +kernel
+example : c01_xmlLiveL c01_exBody1 =
+    { inline := [.text S!"Hello", .tab, .text S!"link", .text S!"after", .noteRef S!"footnote" S!"3",
+                 .text S!"hl", .text S!"ins", .text S!"fb", .text S!"box", .text S!"c1", .text S!"c2"],
+      extra := [] } := by decide +kernel
+example : c01_leavesText (c01_xmlLiveL c01_exBody1).inline = S!"Hello\tlinkafterhlinsfbboxc1c2" := by decide +kernel
+example : c01_okAnd (readAll {} 12 {} c01_exBody1)
+    (fun p => decide (c01_elemLeavesL p.1.elements = (c01_xmlLiveL c01_exBody1).inline)) = true := by decide +kernel
+
+/-- two paragraphs with deleted marks (the first with a text box), taken over by the next paragraph
+    that is opened, which sits in a table cell; a last paragraph with a deleted mark ends the story -/
+private def c01_exBody2 : List XmlNode :=
+  [ c01_x S!"w:p" [c01_xt S!"A"],
+    c01_x S!"w:p" [c01_xdelPr, c01_xt S!"d1", c01_xbox [c01_x S!"w:p" [c01_xt S!"dbox"]]],
+    c01_x S!"w:p" [c01_xdelPr, c01_xt S!"d2"],
+    c01_x S!"w:tbl" [c01_x S!"w:tr" [c01_x S!"w:tc" [c01_x S!"w:p" [c01_xt S!"c1", c01_xbox [c01_x S!"w:p" [c01_xt S!"cbox"]]]],
+                                     c01_x S!"w:tc" [c01_x S!"w:p" [c01_xt S!"c2"]]]],
+    c01_x S!"w:p" [c01_xdelPr, c01_xt S!"lost"] ]
+
+example : c01_noVMergeL c01_exBody2 = true ∧ c05_noDelL c01_exBody2 = false := by decide +kernel
+example : (readAll {} 12 {} c01_exBody2).toBool = true := by decide +kernel
+/-- `d1 d2` open the cell paragraph, the deleted paragraph's text box follows that paragraph, before the
+    paragraph's own text box; `lost` stays in the buffer -/
+example : c01_xmlLiveDL [] c01_exBody2 =
+    { live := { inline := [.text S!"A", .text S!"d1", .text S!"d2", .text S!"c1", .text S!"dbox", .text S!"cbox",
+                           .text S!"c2"], extra := [] },
+      buf := [{ inline := [.text S!"lost"], extra := [] }] } := by decide +kernel
+example : c01_okAnd (readAll {} 12 {} c01_exBody2) (fun p => decide
+      (c01_elemLeavesL p.1.elements = (c01_xmlLiveDL [] c01_exBody2).live.inline ∧
+       c01_elemLeavesL p.1.extra = (c01_xmlLiveDL [] c01_exBody2).live.extra ∧
+       c01_pend p.2.deleted = (c01_xmlLiveDL [] c01_exBody2).buf)) = true := by decide +kernel
+/-- without the last paragraph nothing stays deferred: the hypothesis of `C01_read_nothing_lost` holds -/
+example : (c01_xmlLiveDL [] c01_exBody2.dropLast).buf = [] ∧ c01_noVMergeL c01_exBody2.dropLast = true ∧
+    (readAll {} 12 {} c01_exBody2.dropLast).toBool = true := by decide +kernel
+/-- a non-initial state (`C01_read_leaves`): a paragraph read while a run is held back -/
+example : c01_okAnd (readElem {} 6 { deleted := [c01_xt S!"held"] } (c01_x S!"w:p" [c01_xt S!"own"]))
+      (fun p => decide (c01_elemLeavesL p.1.elements =
+          (c01_xmlLiveD (c01_pend [c01_xt S!"held"]) (c01_x S!"w:p" [c01_xt S!"own"])).live.inline ∧
+        c01_pend p.2.deleted = [])) = true ∧
+    (c01_xmlLiveD (c01_pend [c01_xt S!"held"]) (c01_x S!"w:p" [c01_xt S!"own"])).live.inline =
+      [.text S!"held", .text S!"own"] ∧
+    c01_noVMergeL [c01_xt S!"held"] = true := by decide +kernel
+/-- both halves on the first body without its note reference: no `!` in the empty style map, plain elements -/
+private def c01_exBody3 : List XmlNode :=
+  [ c01_x S!"w:p" [c01_xt S!"one", c01_xbox [c01_x S!"w:p" [c01_xt S!"box"]], c01_x S!"w:r" [c01_x S!"w:tab" []]],
+    c01_x S!"w:p" [c01_xdelPr, c01_xt S!"two"], c01_x S!"w:p" [c01_xt S!"three"] ]
+example : c01_noVMergeL c01_exBody3 = true ∧ c01_noIgnoreMap {} = true ∧
+    c01_okAnd (readAll {} 12 {} c01_exBody3) (fun p => c01_plainL p.1.elements) = true ∧
+    c01_leavesText (c01_xmlLiveDL [] c01_exBody3).live.inline = S!"one\tboxtwothree" := by decide +kernel
+/-- a table with a vertical-merge continuation cell: its content is specified but removed by the sweep
+    (the sublist statement is strict here) -/
+private def c01_exMerge : List XmlNode :=
+  [ c01_x S!"w:tbl"
+      [ c01_x S!"w:tr" [c01_x S!"w:tc" [c01_x S!"w:tcPr" [.elem S!"w:vMerge" [(S!"w:val", S!"restart")] []],
+                                       c01_x S!"w:p" [c01_xt S!"top"]]],
+        c01_x S!"w:tr" [c01_x S!"w:tc" [c01_x S!"w:tcPr" [c01_x S!"w:vMerge" []], c01_x S!"w:p" [c01_xt S!"cont"]]] ] ]
+example : c01_noVMergeL c01_exMerge = false ∧
+    (c01_xmlLiveDL [] c01_exMerge).live.inline = [.text S!"top", .text S!"cont"] ∧
+    c01_okAnd (readAll {} 12 {} c01_exMerge)
+      (fun p => decide (c01_elemLeavesL p.1.elements = [.text S!"top"])) = true := by
+  decide +kernel
 
 end Mammoth
